@@ -163,16 +163,28 @@ def rule_z3(repo, col):
     srcs = []
     ok = True
     seen_pos = seen_neg = False
+    # the evidence-override branch may live in a module-level helper that receives the evaluator and the loop variables (inlining bound 1)
+    scopes = [(paths, ix, val, "evaluator", True)]
     for p in paths:
+        for fn, a, _ in p.calls:
+            if fn in m.functions and ix in a and "evaluator" in a:
+                h = m.functions[fn]
+                if len(h.params) == len(a) and not any(sc[0] is not paths and sc[4] is h for sc in scopes):
+                    hp = dtable.extract(h.node, opaque_loops=True)
+                    scopes.append((hp, h.params[a.index(ix)], h.params[a.index(val)] if val in a else val, h.params[a.index("evaluator")], h))
+    for sc_paths, ix_, val_, evn, is_main in scopes:
+      for p in sc_paths:
         conds = dict((s, t) for s, t, _ in p.conds)
         for fn, a, _ in p.calls:
-            if fn != "evaluator.add_evidence":
+            if fn != "%s.add_evidence" % evn:
                 continue
             srcs.append(a[0])
-            from_dict = conds.get("evidence is None") is False and not any(s.startswith("<except") for s in conds)
+            a = [a[0].replace(ix_, ix).replace(val_, val)] if is_main is not True else a
+            from_dict = (conds.get("evidence is None") is False or is_main is not True) and not any(s.startswith("<except") for s in conds)
             if from_dict:
                 # value = evidence[ev_name]: true -> +index, false -> -index
-                truthy = [t for s, t in conds.items() if s.startswith("evidence[")]
+                import re as _re
+                truthy = [t for s, t in conds.items() if _re.match(r"^\w+\[\w+\]$", s)]
                 if truthy and truthy[-1]:
                     ok = ok and a[0] == ix
                     seen_pos = True
